@@ -182,6 +182,7 @@ func runBackend(t *testing.T, tw *trace.Writer, vname string, c *bcase, idx int,
 		synctest.Wait()
 		nreq := 0
 		var lastCancel context.CancelFunc
+		lastID, justCancelled := 0, 0
 		issued := map[int]time.Time{}
 		waves := map[int]int{} // how many rounds of max_requests (2) concurrent batches a request needs
 		var send func(batches int, fresh bool)
@@ -196,7 +197,7 @@ func runBackend(t *testing.T, tw *trace.Writer, vname string, c *bcase, idx int,
 			}
 			rctx, rc := context.WithCancel(env.Context(ctx))
 			if !fresh {
-				lastCancel = rc
+				lastCancel, lastID = rc, id
 			}
 			mm := mapFor(id, batches)
 			tw.Emit(map[string]any{"ev": "req", "id": id, "batches": batches})
@@ -216,6 +217,7 @@ func runBackend(t *testing.T, tw *trace.Writer, vname string, c *bcase, idx int,
 					}
 					tw.Emit(map[string]any{"ev": "cb", "id": id, "err": has})
 				})
+				tw.Emit(map[string]any{"ev": "ret", "id": id}) // the flusher has its goroutine back
 			}()
 		}
 		for _, o := range c.Sched {
@@ -231,6 +233,12 @@ func runBackend(t *testing.T, tw *trace.Writer, vname string, c *bcase, idx int,
 				}
 				precancel = false
 				res.Hit("request-with-cancelled-context")
+			case "sendm": // a dozen requests, each with a context of its own that nobody cancels: more than a sender's queue holds
+				for k := 0; k < 12; k++ {
+					send(o.N, true)
+					synctest.Wait()
+				}
+				res.Hit("more-requests-than-the-queue-holds")
 			case "fail":
 				p.mu.Lock()
 				for k := 0; k < o.N; k++ {
@@ -244,9 +252,17 @@ func runBackend(t *testing.T, tw *trace.Writer, vname string, c *bcase, idx int,
 				if lastCancel != nil {
 					lastCancel()
 					res.Hit("cancel")
+					justCancelled, lastCancel = lastID, nil
 				}
 			}
 			synctest.Wait()
+			if justCancelled != 0 && v.Kind == bk.KindConn {
+				// a socket backend answers a request when the connection recovers or the request is cancelled: this one was, and the
+				// backend has come to rest since
+				tw.Emit(map[string]any{"ev": "cancelled", "id": justCancelled})
+				res.Hit("socket-request-cancelled")
+			}
+			justCancelled = 0
 			if v.Kind == bk.KindHTTP {
 				// an HTTP backend answers when delivery succeeds or the retry window (3 s) of each batch ends; batches go out at most
 				// two at a time, a slow answer takes 2 s, Retry-After is 1 s: 8 s per round of batches is a safe bound
